@@ -424,6 +424,16 @@ def run(chk):
     if not quick:
         chk.coqchk(["Ford.Props.C05"])
 
+    # (0) saved corpus
+    import random
+    for k, c in enumerate(json.load(open(core.VERIF / "corpus" / "C05" / "cases.json"))["cases"]):
+        files = D.gen_project(random.Random(c["seed"]))
+        texts = D.render_project(files)
+        for cfg in c["cfgs"]:
+            chk.count(("corpus", c["seed"], json.dumps(cfg, sort_keys=True)))
+        check_project(chk, files, texts, c["cfgs"], f"corpus project (seed {c['seed']})", stats)
+        end_to_end_one(chk, files, texts, c["cfgs"][0], stats, graph=False) if k == 0 else None
+
     # (1) the fixed program under the product of options (sampled in the quick tier, complete in the thorough one)
     cases = exhaustive_cases()
     total = len(cases)
